@@ -591,11 +591,31 @@ impl Storage {
         self.get_matched_blocks(Direction::Reverse)
     }
 
+    // A response of the old protocol version carries no extension: do not overwrite a header
+    // which is stored with its extension (by the block filter, or by a newer response).
+    fn header_with_stored_extension(&self, hwe: &HeaderWithExtension) -> Vec<u8> {
+        if hwe.extension.is_none() {
+            let block_hash = hwe.header.calc_header_hash();
+            if let Some(stored) = self
+                .get(Key::BlockHash(&block_hash).into_vec())
+                .expect("db get should be ok")
+            {
+                if stored.len() > Header::TOTAL_SIZE {
+                    return stored;
+                }
+            }
+        }
+        hwe.to_vec()
+    }
+
     pub fn add_fetched_header(&self, hwe: &HeaderWithExtension) {
         let mut batch = self.batch();
         let block_hash = hwe.header.calc_header_hash();
         batch
-            .put(Key::BlockHash(&block_hash).into_vec(), hwe.to_vec())
+            .put(
+                Key::BlockHash(&block_hash).into_vec(),
+                self.header_with_stored_extension(hwe),
+            )
             .expect("batch put should be ok");
         batch
             .put(
@@ -611,7 +631,10 @@ impl Storage {
         let block_hash = hwe.header.calc_header_hash();
         let block_number: u64 = hwe.header.raw().number().unpack();
         batch
-            .put(Key::BlockHash(&block_hash).into_vec(), hwe.to_vec())
+            .put(
+                Key::BlockHash(&block_hash).into_vec(),
+                self.header_with_stored_extension(hwe),
+            )
             .expect("batch put should be ok");
         batch
             .put(
